@@ -495,43 +495,14 @@ def check(ctx):
     no_jump_out_of_finally(ctx, repo, "R4")
 
     # ---- R4 cancellation ----------------------------------------------------
-    n_handlers = 0
+    n_handlers = cancellation_passes_through(ctx, repo, "R4", cg)
     n_finally = 0
     for fi in repo.all_functions():
         if not fi.is_async:
             continue
-        g = None
         for t in walk_no_nested(fi.node):
             if not isinstance(t, ast.Try):
                 continue
-            for h in t.handlers:
-                tn = ast.unparse(h.type) if h.type is not None else ""
-                catches_cancel = h.type is None or "BaseException" in tn or "CancelledError" in tn
-                if not catches_cancel:
-                    continue
-                # only relevant if the try body can be cancelled (contains a suspension)
-                if not any(has_await(s) for s in t.body):
-                    continue
-                n_handlers += 1
-                g = g or cfg_of(fi)
-                hn = g.nodes_for(h)
-                body_nodes = set()
-                for s in h.body:
-                    for sub in ast.walk(s):
-                        body_nodes.update(g.nodes_for(sub))
-                raises = [n for n in body_nodes if isinstance(n.ast, ast.Raise)]
-                bad = False
-                for H in hn:
-                    escaped = g.reach_from(H, avoid=raises) - body_nodes - {H}
-                    escaped = {e for e in escaped if e.kind not in ("raise", "reraise", "join")
-                               and not any(e in g.reach_from(r) and e not in g.reach_from(H, avoid=raises) for r in raises)}
-                    # nodes reached only via exc edges out of the handler are propagation, not swallowing
-                    normal = g.reach_from(H, avoid=raises, labels_skip=("exc",)) - body_nodes - {H}
-                    if normal:
-                        bad = True
-                ctx.ob("R4", f"{fi.qual}::except-{tn or 'bare'}::reraises", not bad,
-                       f"{fi.qual}: handler `except {tn}` (L{h.lineno}) can complete without re-raising: a cancellation is swallowed and the task keeps running",
-                       loc(fi, h), sample={"rule": "R4a", "function": fi.qual, "handler": tn or "bare", "line": h.lineno})
             if t.finalbody:
                 n_finally += 1
                 waits = []
@@ -637,6 +608,156 @@ def check(ctx):
 
 
 _MUTATORS = ("append", "add", "update", "extend", "pop", "clear", "setdefault", "remove", "insert", "popitem", "discard")
+
+
+def cancellation_passes_through(ctx, repo, rule, cg=None):
+    """R4a: whatever intercepts a cancellation delivered at an await lets it go on - `except` handlers of coroutines
+    (bare, BaseException, CancelledError) re-raise on every path, @contextmanager generators wrapped around awaits
+    re-raise at their `yield`, and context-manager classes of the package used around awaits answer a
+    CancelledError with a false value from __exit__ / __aexit__.  -> number of interception sites examined"""
+    from ..callgraph import CallGraph
+    cg = cg or CallGraph(repo)
+    n_handlers = 0
+
+    def _suspends(stmts, via_yield):
+        if via_yield:
+            return any(isinstance(x, (ast.Yield, ast.YieldFrom)) for s_ in stmts for x in ast.walk(s_))
+        return any(has_await(s_) for s_ in stmts)
+
+    def _cancel_handlers(fi, via_yield=False, used_in=None):
+        """handlers of <fi> that can catch a cancellation delivered at a suspension of their try body must re-raise.
+        via_yield: <fi> is a @contextmanager generator wrapped around awaits of a coroutine - the cancellation
+        arrives at its `yield`."""
+        nonlocal n_handlers
+        g = None
+        for t in walk_no_nested(fi.node):
+            if not isinstance(t, ast.Try):
+                continue
+            for h in t.handlers:
+                tn = ast.unparse(h.type) if h.type is not None else ""
+                catches_cancel = h.type is None or "BaseException" in tn or "CancelledError" in tn
+                if not catches_cancel:
+                    continue
+                # only relevant if the try body can be cancelled (contains a suspension)
+                if not _suspends(t.body, via_yield):
+                    continue
+                n_handlers += 1
+                g = g or cfg_of(fi)
+                hn = g.nodes_for(h)
+                body_nodes = set()
+                for s in h.body:
+                    for sub in ast.walk(s):
+                        body_nodes.update(g.nodes_for(sub))
+                raises = [n for n in body_nodes if isinstance(n.ast, ast.Raise)]
+                bad = False
+                for H in hn:
+                    # nodes reached only via exc edges out of the handler are propagation, not swallowing
+                    normal = g.reach_from(H, avoid=raises, labels_skip=("exc",)) - body_nodes - {H}
+                    if normal:
+                        bad = True
+                where = f" (wrapped around awaits of {used_in})" if used_in else ""
+                ctx.ob(rule, f"{fi.qual}::except-{tn or 'bare'}::reraises", not bad,
+                       f"{fi.qual}: handler `except {tn}` (L{h.lineno}) can complete without re-raising{where}: a cancellation is swallowed and the task keeps running",
+                       loc(fi, h), sample={"rule": "R4a", "function": fi.qual, "handler": tn or "bare", "line": h.lineno})
+
+    def _classes_held_in(attr, depth=3):
+        """classes of the package whose instances an attribute / property of that name can hold: `self.<attr> = Cls(...)`
+        anywhere, or a property <attr> returning such an attribute"""
+        out = []
+        if depth <= 0:
+            return out
+        for k in {id(c_): c_ for cs_ in repo.classes().values() for c_ in cs_}.values():
+            for m in k.methods.values():
+                if m.name == attr and m.is_property:
+                    for r in walk_no_nested(m.node):
+                        if isinstance(r, ast.Return) and isinstance(r.value, ast.Attribute):
+                            out += _classes_held_in(r.value.attr, depth - 1)
+                        elif isinstance(r, ast.Return) and isinstance(r.value, ast.Call):
+                            out += _class_of_call(r.value)
+                for n in walk_no_nested(m.node):
+                    if isinstance(n, (ast.Assign, ast.AnnAssign)) and isinstance(getattr(n, "value", None), ast.Call):
+                        for t_ in (n.targets if isinstance(n, ast.Assign) else [n.target]):
+                            if isinstance(t_, ast.Attribute) and t_.attr == attr:
+                                out += _class_of_call(n.value)
+        return out
+
+    def _class_of_call(call):
+        f = call.func
+        cname = f.id if isinstance(f, ast.Name) else f.attr if isinstance(f, ast.Attribute) else None
+        cs = repo.classes().get(cname, []) if cname else []
+        return list(cs) if len(cs) == 1 else []
+
+    def _exit_passes_cancellation(fi, call, used_in):
+        """`with Cm(...):` / `async with self.lock:` around awaits, Cm a class of the package: its __exit__ / __aexit__
+        decides whether the cancellation goes on"""
+        nonlocal n_handlers
+        if isinstance(call, ast.Call):
+            cs = _class_of_call(call)
+        elif isinstance(call, ast.Attribute):
+            cs = list({id(c_): c_ for c_ in _classes_held_in(call.attr)}.values())
+        else:
+            cs = []
+        for one in cs:
+            _one_exit(one, call, used_in)
+
+    def _one_exit(cls_, call, used_in):
+        nonlocal n_handlers
+        cs = [cls_]
+        ex = repo.all_methods(cs[0]).get("__exit__") or repo.all_methods(cs[0]).get("__aexit__")
+        if ex is None:
+            return
+        n_handlers += 1
+        rets = [r for r in walk_no_nested(ex.node) if isinstance(r, ast.Return) and r.value is not None]
+        verdict = None
+        if all(isinstance(r.value, ast.Constant) and not r.value.value for r in rets):
+            verdict = True
+        else:
+            from ..absint import Interp, Obj, Undecided, PyRaise, Builtin
+            try:
+                it = Interp(repo, max_depth=8)
+                from ..absint import Native
+
+                def _lib(it_, node, callee, args, kwargs):
+                    nm = getattr(callee, "name", "")
+                    if nm == "asyncio.current_task":
+                        return Obj(None, {"get_name": Native(lambda a_, k_: "task"), "cancelled": Native(lambda a_, k_: False),
+                                          "cancelling": Native(lambda a_, k_: 1), "done": Native(lambda a_, k_: False)}, name="task")
+                    return NotImplemented
+                it.call_hook = _lib
+                r = it.call(ex, Obj(cs[0], {}), [Builtin("asyncio.CancelledError"), Obj(None, {}, name="CancelledError()"), None])
+                verdict = not it.truth(r)
+            except (Undecided, PyRaise, AnalysisError) as e_:
+                ctx.note(f"{rule}: {ex.qual} around awaits of {used_in}: what it answers to a cancellation was not decided ({str(e_)[:80]})")
+        if verdict is not None:
+            ctx.ob(rule, f"{ex.qual}::passes-cancellation-on", verdict,
+                   f"{ex.qual} answers a CancelledError with a true value: `with {ast.unparse(call)[:50]}` in {used_in} swallows the cancellation and the task keeps running",
+                   ex.loc, sample={"rule": "R4a", "function": ex.qual, "used_in": used_in})
+
+    seen_cms = set()
+    for fi in repo.all_functions():
+        if not fi.is_async:
+            continue
+        _cancel_handlers(fi)
+        for t in walk_no_nested(fi.node):
+            if isinstance(t, (ast.With, ast.AsyncWith)) and any(has_await(s_) for s_ in t.body):
+                for item in t.items:
+                    c = item.context_expr
+                    if not isinstance(c, ast.Call):
+                        if isinstance(c, ast.Attribute) and ("attr", c.attr) not in seen_cms:
+                            seen_cms.add(("attr", c.attr))
+                            _exit_passes_cancellation(fi, c, fi.qual)
+                        continue
+                    gens = [f2 for f2 in cg.resolve(fi, c) if any("contextmanager" in ast.unparse(d) for d in f2.node.decorator_list)]
+                    for f2 in gens:
+                        if id(f2.node) not in seen_cms:
+                            seen_cms.add(id(f2.node))
+                            _cancel_handlers(f2, via_yield=True, used_in=fi.qual)
+                    if not gens:
+                        key = ast.unparse(c.func)
+                        if key not in seen_cms:
+                            seen_cms.add(key)
+                            _exit_passes_cancellation(fi, c, fi.qual)
+    return n_handlers
 
 
 def no_shared_defaults(ctx, repo, rule):
